@@ -189,7 +189,7 @@ static int COMBINED;
 void h_finfo_index_init(void)
 {
 	HAVOC(IN, struct in);
-	ASSUME(IN.has_combined <= 1 && IN.memlimit >= 1 && IN.memused <= IN.memlimit);
+	ASSUME(IN.has_combined <= 1 && IN.memlimit >= 1 && IN.memused <= IN.memlimit && IN.cur <= IN.file_size);
 	setup(); memset(&GX, 0, sizeof(GX));
 	C.sequence = SEQ_INDEX_INIT; C.memlimit = IN.memlimit; C.combined_index = IN.has_combined ? (lzma_index *)&COMBINED : NULL;
 	C.footer_flags.backward_size = IN.backward; g_memused = IN.memused;
